@@ -124,6 +124,23 @@ class Fixture:
                             f.write(target[i]["content"] + "\n")
                 os.chmod(ap, 0o755 if target[i]["exec"] else 0o644)
 
+    def rebuild(self, b, st):
+        """Fresh working tree for branch b in abstract state st (tip, pending merge, contents): used when the working
+        tree itself (dirstate) gave up on the accumulated renames - not C02's subject."""
+        tree = self.trees[b]
+        cd = tree.controldir
+        base = tree.basedir
+        cd.destroy_workingtree_metadata()
+        for n in os.listdir(base):
+            if n != ".bzr":
+                p = os.path.join(base, n)
+                shutil.rmtree(p) if os.path.isdir(p) and not os.path.islink(p) else os.unlink(p)
+        self.trees[b] = tree = cd.create_workingtree(revision_id=rid(st["tip"][b]))
+        if st["pm"][b]:
+            with tree.lock_write():
+                tree.set_parent_ids([rid(st["tip"][b]), rid(st["pm"][b])])
+        self.set_wt(b, st["wt"][b])
+
     def close(self):
         shutil.rmtree(self.root, ignore_errors=True)
 
@@ -175,10 +192,9 @@ def replay(sub, chunk):
         fx = Fixture(sub.workdir, fmt, tree0)
         calls = []
         try:
-            for act, st in beh[1:]:
+            def do_step(st):
                 s = st["step"]
                 a, b = s["a"], s["b"]
-                calls.append([a, b, s["r"]])
                 tree = fx.trees[b]
                 if a == "commit":
                     tree.commit("m", rev_id=rid(s["r"]), timestamp=1000000000 + s["r"], timezone=0, committer="C <c@e.com>")
@@ -192,6 +208,22 @@ def replay(sub, chunk):
                         with tree.lock_write():
                             tree.set_parent_ids([rid(st["tip"][b]), rid(s["r"])])
                     fx.set_wt(b, st["wt"][b])
+
+            prev = beh[0][1]
+            for act, st in beh[1:]:
+                s = st["step"]
+                calls.append([s["a"], s["b"], s["r"]])
+                try:
+                    do_step(st)
+                except Exception as ex:  # noqa
+                    if not type(ex).__name__ in ("DirstateCorrupt", "InconsistentDelta", "AssertionError", "BzrMoveFailedError", "NoSuchFile"):
+                        raise
+                    # the working tree (dirstate) broke down, not the commit builder: fresh tree in the pre-state, once more
+                    sub.cov["wt_rebuilds"] = sub.cov.get("wt_rebuilds", 0) + 1
+                    sub.cov.setdefault("_collect", []).append({"wt_rebuild": "%s: %s" % (type(ex).__name__, str(ex)[:160]), "calls": list(calls), "format": fmt})
+                    fx.rebuild(s["b"], prev)
+                    do_step(st)
+                prev = st
             last = beh[-1][1]
             n = len(last["P"])
             repo = _r.Repository.open(fx.repo_url)
@@ -288,8 +320,14 @@ def run(ctx):
             fmts = ("2a", "pack-0.92") if (not q or k % 2 == 0) else ("2a",)
         jobs += [(fmt, b) for fmt in fmts]
     core.fork_map(ctx, replay, jobs, chunks_per_proc=8)
-    rows = ctx.collected
+    rows = [r for r in ctx.collected if "wt_rebuild" not in r]
+    rebuilds = [r for r in ctx.collected if "wt_rebuild" in r]
     ctx.collected = []
+    ctx.cov["working_tree_rebuilds"] = len(rebuilds)
+    if rebuilds:
+        ctx.cov["working_tree_rebuild_example"] = min(rebuilds, key=lambda r: len(r["calls"]))
+        ctx.assume("in %d replays the working tree (dirstate) failed on the accumulated renames and was recreated at the same "
+                   "abstract state; the commit under test then ran on the fresh tree" % len(rebuilds))
     for row, failed, drift in table.judge(ctx, "PerFileGraphTrace", rows, workers=8, chunk=2000):
         meta = row["meta"]
         merges = sum(1 for p in row["c"]["P"] if len(p) > 1)
